@@ -270,3 +270,73 @@ def run(ctx, F, rule="E-SAT"):
     n += run_kind(ctx, F, rule, "zbdd", find_inner(F, "oxidd_rules_zbdd::apply_rec::"), tables.ZBDD, False,
                   Edge(("T", Enum(Z + "::Base")), None), Edge(("T", Enum(Z + "::Empty")), None), zbdd=True)
     return n
+
+
+def check_scaling(ctx, F, rule="E-SAT.scale"):
+    """`sat_count_edge(vars)` scales the count by a power of two that depends on `vars` (2^vars for BDDs, a shift by the
+    difference to the number of levels for ZBDDs).  Every subtraction that involves the `vars` parameter is dominated
+    by a comparison involving it (an unguarded `num_levels - vars` underflows for vars > num_levels); and no shift
+    of the number types relies on `checked_shl` to detect lost bits (it only checks the shift amount)."""
+    import re
+    from lib import cfg
+    n = 0
+    for fid, m in sorted(F.mir.items()):
+        if not (fid.endswith("::sat_count_edge") and fid.split("::")[0] in ("oxidd_rules_bdd", "oxidd_rules_zbdd")):
+            continue
+        B = cfg.Body(m)
+        vl = [i for i, l in enumerate(m["locals"]) if l.get("n") == "vars" and i <= m.get("argc", 0)]
+        if not vl:
+            continue
+        derived = set(vl)
+        grown = True
+        while grown:
+            grown = False
+            for bi in B.reach:
+                for s in B.blocks[bi]["s"]:
+                    rv = s.get("rv") or {}
+                    if rv.get("k") in ("use", "cast") and isinstance(s.get("lhs"), int) and s["lhs"] not in derived:
+                        o = rv["op"]
+                        src = o.get("cp", o.get("mv"))
+                        if isinstance(src, int) and src in derived:
+                            derived.add(s["lhs"])
+                            grown = True
+        def refs(op):
+            v = (op or {}).get("cp", (op or {}).get("mv"))
+            return isinstance(v, int) and v in derived
+        cmps = [bi for bi in B.reach for s in B.blocks[bi]["s"]
+                if (s.get("rv") or {}).get("k") == "bin" and s["rv"].get("o") in ("Lt", "Le", "Gt", "Ge")
+                and (refs(s["rv"].get("a")) or refs(s["rv"].get("b")))]
+        bad = []
+        subs = 0
+        for bi in sorted(B.reach):
+            if B.blocks[bi]["c"]:
+                continue
+            for s in B.blocks[bi]["s"]:
+                rv = s.get("rv") or {}
+                if rv.get("k") in ("bin", "checked") and str(rv.get("o", "")).startswith("Sub") and (refs(rv.get("a")) or refs(rv.get("b"))):
+                    subs += 1
+                    if not any(c != bi and B.dominates(c, bi) for c in cmps):
+                        bad.append(bi)
+        n += 1
+        nice = F.nice(fid)
+        ctx.ob(rule, "%s:%s" % (rule, nice), not bad,
+               "%s (%s): %s" % (nice, F.where(fid),
+                                "%d subtraction(s) involving `vars`, each guarded by a comparison" % subs if not bad else
+                                "a subtraction involving the `vars` parameter is not dominated by a comparison on it: it "
+                                "underflows when `vars` exceeds the other operand (panic in debug builds, garbage shift otherwise)"))
+    # checked_shl / checked_shr are not overflow checks
+    m2 = 0
+    for fid, m in sorted(F.mir.items()):
+        if not fid.startswith("oxidd_core::util::num"):
+            continue
+        m2 += 1
+        for i, t in cfg.Body(m).calls():
+            cn = cfg.callee_name(t) or ""
+            if re.search(r"::checked_sh[lr]$", cn):
+                ctx.ob(rule + ".shl", "%s.shl:%s" % (rule, F.nice(fid)), False,
+                       "%s (%s, line %s): `%s` only checks the shift amount, not whether 1-bits are shifted out; as a "
+                       "saturation / overflow test it lets `3 << 63` through" % (F.nice(fid), F.where(fid), t.get("ln"),
+                                                                                  cn.rsplit("::", 1)[-1]))
+    ctx.ob(rule + ".shl", rule + ".shl:oxidd_core::util::num", True, "%d bodies of oxidd_core::util::num scanned for checked_shl/shr" % m2,
+           nontrivial=False)
+    return n
